@@ -1528,9 +1528,21 @@ class quantized_bits(base_quantizer.BaseQuantizer):  # pylint: disable=invalid-n
             self.keep_negative,
         "use_stochastic_rounding":
             self.use_stochastic_rounding,
+        "scale_axis":
+            self.scale_axis,
         "qnoise_factor":
             self.qnoise_factor.numpy() if isinstance(
                 self.qnoise_factor, tf.Variable) else self.qnoise_factor,
+        "use_ste":
+            self.use_ste,
+        "use_variables":
+            self.use_variables,
+        "elements_per_scale":
+            self.elements_per_scale,
+        "min_po2_exponent":
+            self.min_po2_exponent,
+        "max_po2_exponent":
+            self.max_po2_exponent,
         "post_training_scale":
             # Since NumPy arrays are not directly JSON-serializable,
             # we convert them to lists.
